@@ -257,7 +257,7 @@ lemma foldl_add_eq_sum (l : List Rat) (a : Rat) : l.foldl (· + ·) a = a + l.su
 
 /-- **An averaged (`ensemble_mean`) axis is the mean of the weighted members, as the code defines it**:
 `mean_i (w_i · f_i) = (Σ w_i f_i) / n`; with unit weights it is the plain average of the scalar runs. -/
-theorem mean_axis_eq_weighted_mean (ws fs : List Rat) :
+theorem mean_axis_is_mean_of_weighted_members (ws fs : List Rat) :
     meanList (List.zipWith (· * ·) ws fs) = (List.zipWith (· * ·) ws fs).sum / ((List.zipWith (· * ·) ws fs).length : Rat) ∧
     (ws = List.replicate fs.length 1 → meanList (List.zipWith (· * ·) ws fs) = fs.sum / (fs.length : Rat)) := by
   constructor
@@ -433,18 +433,32 @@ theorem mean_eq_weightedMean_of_unit_weights (fs : List Rat) (hne : fs ≠ []) :
     | cons x xs _ => simp [List.sum_replicate]
   rw [weightedMean, key fs, hs]; simp [meanList, foldl_add_eq_sum]
 
-/-- Known finding `aberrations:ensemble-mean-is-sum-w2I-over-n`: for non-unit weights the code's reduction of an
-aberration / CTF ensemble, `(1/n) Σ wᵢ fᵢ` (with `wᵢ` the intensity weights), is **not** the weighted mean
-`Σ wᵢ fᵢ / Σ wᵢ` the statement asks for. -/
-theorem ensemble_mean_ne_weighted_mean_counterexample :
-    ¬ ∀ ws fs : List Rat, meanList (List.zipWith (· * ·) ws fs) = weightedMean ws fs := by
-  intro h
-  have := h [1 / 4, 1] [1, 1]
-  revert this
-  decide +kernel
+lemma sum_zipWith_scaled (c : Rat) (us fs : List Rat) :
+    (List.zipWith (· * ·) (us.map fun u => u * c) fs).sum = c * (List.zipWith (· * ·) us fs).sum := by
+  induction us generalizing fs with
+  | nil => simp
+  | cons u us ih =>
+    cases fs with
+    | nil => simp
+    | cons f fs => simp only [List.map_cons, List.zipWith_cons_cons, List.sum_cons, ih]; ring
 
-/-- Known finding `envelope:ensemble-mean-ignores-distribution-weights`: the envelope / aperture transforms drop the
-weights (`unpacked, _ = _unpack_distributions(...)`), so their reduction is the plain mean of the members, which is not
+/-- **Averaged aberration / CTF axes are the weighted mean** (since fix 4ef047d8): with the intensity weights rescaled by
+`n / Σu` in `_unpack_distributions`, the plain mean that `reduce_ensemble` takes over the weighted members equals
+`Σ uᵢ fᵢ / Σ uᵢ`, for every weight list with non-zero sum and every member results. -/
+theorem averaged_axis_eq_weighted_mean (us fs : List Rat) (hlen : us.length = fs.length) (hne : us ≠ []) (hs : us.sum ≠ 0) :
+    meanList (List.zipWith (· * ·) (normalizeMeanWeights us) fs) = weightedMean us fs := by
+  have hn : (us.length : Rat) ≠ 0 := by
+    have : 0 < us.length := List.length_pos_of_ne_nil hne
+    exact_mod_cast Nat.pos_iff_ne_zero.1 this
+  have hl : (List.zipWith (· * ·) (normalizeMeanWeights us) fs).length = us.length := by
+    simp [normalizeMeanWeights, hlen]
+  have hmap : normalizeMeanWeights us = us.map fun u => u * ((us.length : Rat) / us.sum) := by
+    unfold normalizeMeanWeights; apply List.map_congr_left; intro u _; ring
+  rw [meanList, foldl_add_eq_sum, zero_add, hl, hmap, sum_zipWith_scaled, weightedMean]
+  field_simp
+
+/-- Known finding `envelope:ensemble-mean-ignores-distribution-weights`: TemporalEnvelope and SpatialEnvelope discard the
+weights (`unpacked, _ = _unpack_distributions(...)`), Aperture never reads them, so their reduction is the plain mean of the members, which is not
 the weighted mean either. -/
 theorem unweighted_mean_ne_weighted_mean_counterexample :
     ¬ ∀ ws fs : List Rat, meanList fs = weightedMean ws fs := by
@@ -452,6 +466,30 @@ theorem unweighted_mean_ne_weighted_mean_counterexample :
   have := h [1, 3] [0, 4]
   revert this
   decide +kernel
+
+/-- a probe member is normalised on its own (`waves.normalize()` after the aberrations): the intensity weight `w`
+multiplies the member and its norm alike -/
+def normalisedIntensity (w psi2 norm2 : Rat) : Rat := (w * psi2) / (w * norm2)
+
+/-- … so a non-zero weight has no effect on the member at all. -/
+theorem normalised_member_ignores_weight (w psi2 norm2 : Rat) (hw : w ≠ 0) :
+    normalisedIntensity w psi2 norm2 = psi2 / norm2 := by
+  unfold normalisedIntensity; rw [mul_div_mul_left _ _ hw]
+
+/-- Known finding `probe:ensemble-mean-weights-cancelled-by-normalisation`: the mean over an averaged parameter axis of
+built probes (each member normalised on its own) is not the weighted mean of the normalised members. -/
+theorem probe_mean_ne_weighted_mean_counterexample :
+    ¬ ∀ ws psis norms : List Rat, meanList (List.zipWith (fun w (p : Rat × Rat) => normalisedIntensity w p.1 p.2) ws (psis.zip norms))
+        = weightedMean ws (List.zipWith (· / ·) psis norms) := by
+  intro h
+  have := h [1, 3] [0, 4] [1, 1]
+  revert this
+  decide +kernel
+
+/-- Known finding `tilt:ensemble-mean-ignores-distribution-weights`: the tilt transforms tile the wave without weights, so
+an averaged tilt axis reduces to the unweighted mean of the members. -/
+theorem tilt_mean_ne_weighted_mean_counterexample :
+    ¬ ∀ ws fs : List Rat, meanList fs = weightedMean ws fs := unweighted_mean_ne_weighted_mean_counterexample
 
 /-! ### non-vacuity -/
 example : evalEnsemble (0 : Int) (1 : Int) (fun l => l.sum) [.dist [10, 20] [1, 2], .scalar 5, .dist [1, 2, 3] [1, 1, 1]]
